@@ -233,7 +233,8 @@ def body(chk):
     for n in ns:
         b = {'string bytes': n, 'alphabet': 'all well-formed UTF-8 (z3 predicate), incl. NUL, metacharacters, multi-byte'}
         run_lane(chk, LdapEscape, (n,), bounds=b, selftest=(n == 3))
-        run_lane(chk, DnEscape, (n,), bounds=b, selftest=(n == 3))
+        if n <= (3 if quick else 4):
+            run_lane(chk, DnEscape, (n,), bounds=b, selftest=(n == 3))
         run_lane(chk, UnescapeRoundTrip, (n,), bounds=b, selftest=False)
         if n <= (3 if quick else 4):
             run_lane(chk, FilterEmbedding, (n,), bounds=b, selftest=(n == 2))
